@@ -813,6 +813,7 @@ func build(name string, n int, a alpha) family {
 }
 
 var outsFull = []string{"", "o", "./o", "d/../o", "dir::d", "dir::d/", "dir::d/e", "d/f", "../x", "../../x", "docker::t", "dir::../../y"}
+var outsSibling = []string{"", "o", "../../root-x/f", "../../root2", "dir::../../root.bak", "../../../root-x/f", "../../../root_", "dir::../../../rootx/d", "../../ro/f", "../../../ro"}
 var outsReduced = []string{"", "o", "./o", "dir::d", "d/f", "docker::t"}
 var outsMid = []string{"", "o", "d/../o", "dir::d/", "dir::d/e", "d/f", "../../x", "docker::t"}
 var insFull = []string{"", "i", "../i", "/abs", "d/../i", "d/../../i"}
@@ -838,7 +839,12 @@ func families(thorough bool) []family {
 	} else {
 		fs = append(fs, build("outputs/n4-dag-reduced", 4, alpha{kinds: []int{kAlias, kPlain}, pool: poolLower, outs: outsReduced, bases: basesReverse}))
 	}
-	// O2: two outputs per target (a target's own outputs may overlap)
+	// O': outputs that leave the workspace into a sibling directory whose name extends the
+	// workspace directory's name (the workspace is /vcheck-c11-ws/root): a containment test on
+	// path strings instead of path components accepts them
+	for n := 1; n <= 2; n++ {
+		fs = append(fs, build(fmt.Sprintf("sibling-escapes/n%d", n), n, alpha{kinds: []int{kAlias, kPlain}, pool: poolOthers, pkgs: []int{0, 1}, outs: outsSibling}))
+	}
 	for n := 1; n <= 2; n++ {
 		fs = append(fs, build(fmt.Sprintf("two-outputs/n%d", n), n, alpha{kinds: []int{kAlias, kPlain}, pool: poolOthers, pkgs: []int{0, 1}, outs: outsFull, seconds: []string{"", "dir::d/e", "bin=d/f", "docker::u"}}))
 	}
